@@ -10,7 +10,9 @@ package main
 // once — there is no buffer in the specification, so whatever the program wrote before it ended (normally, by exit, or by a
 // run-time error at any place) is in the files and on standard output afterwards.
 //
-// The evaluator knows nothing of the compiler or the VM; it walks the tree.
+// The evaluator knows nothing of the compiler or the VM; it walks the tree. The return-value stream (retval.go) uses the same
+// evaluator and adds three ways of looking at a value: isnull (`v == 0 && v == ""`), key (a subscript of a fixed table), catlen
+// (length of a concatenation); the `left:` marks record how each activation was left and what the calls it made had returned.
 
 import (
 	"fmt"
